@@ -188,6 +188,11 @@ func (w *World) spawnObserver() {
 				e.Info = "Cmd"
 			default:
 				e.Info = fmt.Sprintf("%T", p)
+				if v := reflect.ValueOf(p); v.Kind() == reflect.Struct {
+					if f := v.FieldByName("ID"); f.IsValid() && f.CanInt() {
+						e.ID = int(f.Int())
+					}
+				}
 				if sm, ok := unwrapSched(p); ok {
 					if c, ok := sm.(*Cmd); ok {
 						e.ID = c.ID
